@@ -21,6 +21,12 @@ Theorem C19_roundtrip : forall v prev, valid_vla v ->
 Proof. exact vla_roundtrip. Qed.
 Print Assumptions C19_roundtrip.
 
+(* Marshal loses nothing: two valid allocations with the same encoding are the same allocation *)
+Theorem C19_marshal_injective : forall v1 v2 bs, valid_vla v1 -> valid_vla v2 ->
+  vla_marshal v1 = Ok bs -> vla_marshal v2 = Ok bs -> v1 = v2.
+Proof. exact vla_marshal_injective. Qed.
+Print Assumptions C19_marshal_injective.
+
 Theorem C19_total : forall prev bs,
   match vla_unmarshal prev bs with
   | VPanic => False
